@@ -65,6 +65,9 @@ def run(ctx):
     # ---- composed workspace model: link tables through gaps, attaches and save+load (no state injection)
     from .. import system
     system.simulate_and_replay(ctx, 100 if q else 2500, 14 if q else 22)
+    # ... and exhaustively for small constants, concentrated on empty positions: attach / attach at the end / empty position /
+    # connect / save+load - link entries name POSITIONS, also behind gaps (transitions replayed with state injection)
+    system.graph_replay(ctx, q, emitk=8 if q else 1, focus="gaps")
     # ---- mode B: histories with interleaved save/load
     classes = links.simple_classes()
     hist = []
